@@ -202,7 +202,7 @@ for _p, _h in (("C03", "PointCharge"), ("C05", "Evals"), ("C06", "Density"), ("C
                                   "the symbolic arrays all report float64")
 
 # the coordinate-type tag (and its short spellings) selects the route of every public wrapper
-for _p in ("C01", "C03", "C09"):
+for _p in ("C01", "C03", "C09", "C19"):
     CHECKS[_p].harnesses.append("contracts.overlap:ShellSetters")
 
 # the contracts assumed on scipy.special by the symbolic runs, checked (bounded) on the reachable argument range
